@@ -454,6 +454,43 @@ def read_unit_system(cpp_path, hpp_path, scope):
 DIM_RE = re.compile(r'"dimension"\s*:\s*(\[[^\]]*\]|"[^"]*")')
 
 
+def load_json_lenient(text):
+    """cJSON accepts what strict JSON does not: raw control characters inside strings and numbers such as
+    `35.` / `1.e-01`.  Returns None when the text still cannot be read."""
+    import json
+    text = re.sub(r"(\d)\.(?=[\s,}\]eE])", r"\1.0", text)
+    try:
+        return json.loads(text, strict=False)
+    except ValueError:
+        return None
+
+
+def item_dims_of(j):
+    """[(record index, item name, [dims])] of one keyword JSON object, as ParserKeyword reads it."""
+    out = []
+
+    def dims(it):
+        d = it.get("dimension")
+        if d is None:
+            return []
+        return [d] if isinstance(d, str) else list(d)
+
+    def record(r, items):
+        for it in items:
+            if isinstance(it, dict) and dims(it):
+                out.append((r, it.get("name", "?"), dims(it)))
+    if isinstance(j.get("items"), list):
+        record(0, j["items"])
+    for key in ("records", "alternating_records", "records_set"):
+        if isinstance(j.get(key), list):
+            for r, items in enumerate(j[key]):
+                if isinstance(items, list):
+                    record(r, items)
+    if isinstance(j.get("data"), dict) and dims(j["data"]):
+        out.append((0, "data", dims(j["data"])))
+    return out
+
+
 def read_keyword_dims(repo):
     root = os.path.join(repo, "opm/input/eclipse/share/keywords")
     listing = os.path.join(root, "keyword_list.cmake")
@@ -463,6 +500,7 @@ def read_keyword_dims(repo):
         raise TranslateError("keyword_list.cmake: set(keywords ...) not found")
     listed = set(m.group(1).split())
     uses_listed, uses_unlisted, nfiles, nlisted = {}, {}, 0, 0
+    item_dims, unreadable = {}, []
     sources = [listing]
     for d, _, fs in sorted(os.walk(root)):
         for f in sorted(fs):
@@ -483,12 +521,24 @@ def read_keyword_dims(repo):
                     tgt.setdefault(s, []).append(rel.split("/")[-1])
             if is_listed:
                 sources.append(p)
+                j = load_json_lenient(body)
+                found = []
+                if isinstance(j, dict) and "name" in j:
+                    found = item_dims_of(j)
+                    for r, iname, ds in found:
+                        item_dims[f"{j['name']}.{r}.{iname}"] = ds
+                # the structured reading must account for every "dimension" occurrence of the file
+                n_regex = sum(len(re.findall(r'"([^"]*)"', dm.group(1))) for dm in DIM_RE.finditer(body))
+                if n_regex != sum(len(ds) for _, _, ds in found):
+                    unreadable.append(rel)
     missing = [x for x in listed if not os.path.exists(os.path.join(root, x))]
     if missing:
         raise TranslateError(f"keyword_list.cmake lists missing files: {missing[:5]}")
     if not uses_listed:
         raise TranslateError("no dimension strings found in keyword JSON")
-    return uses_listed, uses_unlisted, nfiles, nlisted, sources
+    if len(unreadable) > 5:
+        raise TranslateError(f"keyword JSON: {len(unreadable)} listed files could not be read item by item: {unreadable[:8]}")
+    return uses_listed, uses_unlisted, nfiles, nlisted, sources, item_dims, unreadable
 
 
 # ----------------------------------------------------------------------------
@@ -534,7 +584,7 @@ def generate(repo):
     us_hpp = os.path.join(repo, "opm/input/eclipse/Units/UnitSystem.hpp")
     scope, defs = read_units_hpp(hpp)
     measures, dtabs, stabs, systems = read_unit_system(us_cpp, us_hpp, scope)
-    listed, unlisted, nfiles, nlisted, kw_sources = read_keyword_dims(repo)
+    listed, unlisted, nfiles, nlisted, kw_sources, item_dims, unreadable = read_keyword_dims(repo)
     deck_item_cpp = os.path.join(repo, "opm/input/eclipse/Deck/DeckItem.cpp")
     honours = read_deck_item(deck_item_cpp)
 
@@ -590,6 +640,12 @@ def generate(repo):
     us = sorted(x for x in unlisted if x not in listed)
     o.append("/-- strings that occur only in keyword files NOT listed in keyword_list.cmake (with one user) -/")
     o.append("def unlistedOnlyDimStrings : List (String × String) := [" + ", ".join(f"({lean_str(x)}, {lean_str(unlisted[x][0])})" for x in us) + "]")
+    o += ["", "/-- per keyword item (`KEYWORD.record.ITEM`) of the listed files: its dimension list -/",
+          "def keywordItemDims : List (String × List String) := ["]
+    ik = sorted(item_dims)
+    o += [f"  ({lean_str(k)}, [" + ", ".join(lean_str(d) for d in item_dims[k]) + "])" + ("," if n + 1 < len(ik) else "") for n, k in enumerate(ik)]
+    o += ["]", "", "/-- listed keyword files whose items could not be read one by one (only their strings are known) -/",
+          "def keywordFilesNotItemised : List String := [" + ", ".join(lean_str(x) for x in unreadable) + "]"]
     o += ["", "/-! ## DeckItem.cpp -/", "",
           "/-- does `DeckItem::get<double>(i)` consult `raw_data` (an explicit specialisation that converts an",
           "SI-state element back)?  `false`: the generic `get<T>` returns `dval[i]` as it is. -/",
